@@ -41,8 +41,8 @@ def run(ctx):
         probs = []
         # a crash of the endpoint that plays the attacker in this scenario (e.g. a server configured with an RSA
         # key where SM2 is required) is not this property's subject; the endpoint under test must not crash
-        srv_is_attacker = any(c[k] not in ("good", "right", "honest", "long", "future") for k in ("signCert", "encCert", "signKey", "encKey", "ske"))
-        cli_is_attacker = c["policy"] != "none" and any(c[k] not in ("good", "right", "honest", "long", "future") for k in ("cliCert", "cliKey", "cv"))
+        srv_is_attacker = any(c[k] not in ("good", "right", "honest", "long", "future", "good_then_rogue") for k in ("signCert", "encCert", "signKey", "encKey", "ske"))
+        cli_is_attacker = c["policy"] != "none" and any(c[k] not in ("good", "right", "honest", "long", "future", "good_then_rogue") for k in ("cliCert", "cliKey", "cv"))
         if g["CliPanic"] and not cli_is_attacker:
             probs.append("client panicked: %s" % g["CliPanic"][:300])
         if g["SrvPanic"] and not srv_is_attacker:
